@@ -283,6 +283,7 @@ cipher_max_len(IMB_CIPHER_MODE c, IMB_CIPHER_DIRECTION d)
 {
         switch (c) {
         case IMB_CIPHER_CBC:
+        case IMB_CIPHER_CFB:
                 return d == IMB_DIR_ENCRYPT ? 65520 : 1 << 20;
         case IMB_CIPHER_ECB:
         case IMB_CIPHER_DES:
@@ -1808,6 +1809,31 @@ first_diff(const uint8_t *a, const uint8_t *b, size_t n)
                 if (a[i] != b[i])
                         return (long) i;
         return -1;
+}
+
+/* FNV-1a hash of the bytes of the item's output that the job specifies (destination range, tag): unspecified bits
+ * (SNOW3G tail bits with a zero bit offset, the CRC half of a PON tag when PLI <= 4) are left out, so that two runs of
+ * the same item can be compared for equality */
+uint64_t
+item_output_hash(const struct item *it)
+{
+        uint64_t h = 0xcbf29ce484222325ULL;
+        if (it->cipher != IMB_CIPHER_NULL && it->dst_len) {
+                const uint8_t *o = it->inplace ? it->src + it->c_off : it->dst;
+                uint32_t n = it->dst_len;
+                uint8_t last = o[n - 1];
+                if (it->cipher == IMB_CIPHER_SNOW3G_UEA2_BITLEN && it->c_off_bits == 0 && (it->c_len_bits & 7))
+                        last &= (uint8_t) (0xff << (8 - (it->c_len_bits & 7)));
+                for (uint32_t i = 0; i + 1 < n; i++)
+                        h = (h ^ o[i]) * 0x100000001b3ULL;
+                h = (h ^ last) * 0x100000001b3ULL;
+        }
+        if (it->tag_len) {
+                uint32_t n = (it->cipher == IMB_CIPHER_PON_AES_CNTR && !it->pon_crc_defined) ? 4 : it->tag_len;
+                for (uint32_t i = 0; i < n; i++)
+                        h = (h ^ it->tag[i]) * 0x100000001b3ULL;
+        }
+        return h;
 }
 
 /* the violation key item_check() would use for a destination (is_tag = 0) or tag (is_tag = 1) mismatch of this
